@@ -60,7 +60,9 @@ def dedup (l : List String) : List String := l.foldl (fun acc s => if acc.contai
 
 def verdict (toks : List String) (out : String) : String :=
   match toks with
-  | ["const"] => if out = "min:" ++ toString minScore then "ok const" else "diff min:" ++ toString minScore
+  -- `minScore` is the constant extracted from the source text (`Gen/Limits.lean`); `out` is the run-time value of the
+  -- compiled `pub const MIN_SCORE`: cross-check of the extraction
+  | ["const"] => if out = "min:" ++ toString minScore then "ok const gen=rt" else "diff min:" ++ toString minScore
   | [capT, scT, wT, callsT] =>
     if !(capT.startsWith "cap:") then "bad-op cap" else
     match parseScTok scT, parseWTok wT, parseListNE parseCall callsT ';' with
